@@ -454,7 +454,7 @@ def rule_V2(ctx, R):
                 break
         if not bad:
             res.ok(f["path"])
-    res.need(221, "safe non-acquiring functions")
+    res.need(219, "safe non-acquiring functions")
     return res
 
 
